@@ -53,7 +53,8 @@ claim("C15",
       "Decides gating (each of the four gated indications occurs only on paths where its own switch was read and is true), completeness (every EOF acceptance, File Data write, EOF "
       "emission and - via a must-analysis over the ATS - every busy-to-idle transition other than abandonment/reset carries its indication when the switch is on), causal order "
       "(Transaction before any PDU, Transaction-Finished last / in the completion step, File-Segment-Recv only after Metadata) and parameter origin (offset/length, Metadata fields, "
-      "Finished PDU built from the same unchanged block). The originating-transaction-id rule for reserved messages is not decided.",
+      "Finished PDU built from the same unchanged block), and the originating-transaction-id rule as a complete decision table over message lists of up to three messages with free "
+      "reserved-message predicates (id surfaced iff some message carries one and no message is a proxy put response).",
       "trusted: as C10",
       "DESIGN.md section 2 C15")
 claim("C09",
